@@ -414,7 +414,11 @@ func (c *PathCtx) script(extra *smt.Term) (string, map[string]int) {
 func (c *PathCtx) oneShot(extra *smt.Term) (smt.Result, *smt.Model) {
 	script, decl := c.script(extra)
 	c.oneShots++
-	r, m, _ := smt.OneShot(c.Solver.Cmd, script, decl, OneShotTimeoutMs)
+	cmd := c.Solver.Cmd
+	if cmd[0] == "libz3" {
+		cmd = []string{"z3-new", "-in"}
+	}
+	r, m, _ := smt.OneShot(cmd, script, decl, OneShotTimeoutMs)
 	switch r {
 	case smt.Sat:
 		c.Solver.NSat++
